@@ -396,12 +396,17 @@ def run_core(ch, env, prop):
     # one run in three writes its float / integer leaves the way the tiling workflows do: through two locked updates
     # (upper half, then lower half) instead of one write
     via_updates = mode in ("F32", "F64", "I16", "I32") and ch.draw(3, kind="leaves_via_updates") == 2
+    # one npy pyramid in four holds its leaves in big-endian byte order, as tiles sampled from FITS data do
+    # (np.save records the byte order of what it is given)
+    big_endian = fmt == "npy" and mode in ("F32", "F64", "I16", "I32") and not via_updates and ch.draw(4, kind="leaf_byte_order") == 3
     for p, a in leaves.items():
         if via_updates:
             src = Image.from_array(a.copy())
             for rows in (slice(0, 100), slice(100, 256)):
                 with pio.update_image(p, masked_mode=src.mode, default="masked") as basis:
                     src.update_into_maskable_buffer(basis, rows, slice(None), rows, slice(None))
+        elif big_endian:
+            pio.write_image(p, Image.from_array(a.astype(a.dtype.newbyteorder(">"))))
         else:
             pio.write_image(p, Image.from_array(a.copy()))
     # stale parents where at least one child tile will exist
@@ -446,7 +451,7 @@ def run_core(ch, env, prop):
            "extra": {"combo_%s_%s" % (fmt, mode): 1, "workers_%d" % workers: 1, "start_%d" % start: 1},
            "probes": {"stale_parent_planted": n_stale, "sparse_parent": int(sparse), "with_filter": int(use_filter),
                       "parallel_runs": int(workers > 1),
-                      "deep_cascade": int(deep), "user_merger": int(merger_kind != "stock"),
+                      "deep_cascade": int(deep), "user_merger": int(merger_kind != "stock"), "big_endian_leaves": int(big_endian),
                       "merged_all_undefined": int(any(pp not in ref for pp in parent_cands))}}
 
     common.draw_progress(ch, res)
